@@ -12,6 +12,11 @@ from vf.harness.common import StubHelper, base_loop, concretize, shard_int
 
 PROPERTY = "C10"
 PING_REQ_PACKET = (7, b"")
+# "no message at all arrived": every kind of well-formed message counts -- the device's own requests
+# (which the client answers), responses, state updates, and types the client has no handler for
+MSG_KINDS = [(8, b""), (7, b""), (25, b"\x0d\x01\x00\x00\x00"), (26, b""), (29, b"")]
+MSGK = shard_int("MSGK", 0)
+REPLY_OF = {7: 8}  # requests of the device that the client answers
 
 
 class _Handle:
@@ -137,7 +142,8 @@ def h10a_step(which: int, k: int, now: int, pending: bool, armed: bool, deadline
         tick_handle.cancelled = True  # the loop popped it: it is firing now
         conn._async_send_keep_alive()
     elif w == 1:
-        conn.process_packet(8, b"")  # any well-formed message; PingResponse has no handler side effects
+        mt, mp = MSG_KINDS[MSGK]
+        conn.process_packet(mt, mp)  # any well-formed message
     else:
         if not armed:
             return True  # the pong timer can only fire when armed
@@ -172,8 +178,10 @@ def h10a_step(which: int, k: int, now: int, pending: bool, armed: bool, deadline
             return track.fail("tick changed the connection state")
         return True
     if w == 1:
-        if helper.writes:
-            return track.fail("a device message caused a write")
+        mt = MSG_KINDS[MSGK][0]
+        sent = [p[0] for wr in helper.writes for p in wr]
+        if sent != ([REPLY_OF[mt]] if mt in REPLY_OF else []):
+            return track.fail(f"device message {mt}: unexpected writes {sent}")
         if conn._send_pending_ping is not False:
             return track.fail("a device message did not cancel the pending ping")
         if conn._pong_timer is not None or (pong_handle is not None and not pong_handle.cancelled):
@@ -274,7 +282,11 @@ def h10c_run(g0: int, g1: int, g2: int, g3: int, g4: int) -> bool:
         nxt = arrivals[ai] if ai < len(arrivals) else None
         if nxt is not None and (h is None or nxt < h.when):
             loop.now = nxt
-            conn.process_packet(8, b"")
+            mt, mp = MSG_KINDS[MSGK]
+            nw0 = len(helper.writes)
+            conn.process_packet(mt, mp)
+            if [p[0] for wr in helper.writes[nw0:] for p in wr] != ([REPLY_OF[mt]] if mt in REPLY_OF else []):
+                return track.fail(f"device message {mt}: unexpected writes")
             ai += 1
         else:
             if h is None:
@@ -392,14 +404,23 @@ def smt_obligations(tier: str) -> list:
 
 def shards(tier: str) -> list:
     out = [{"fn": "h10a_step", "env": {"WHICH": w}, "cond_timeout": 300,
-            "desc": f"one automaton step of the real {('tick', 'message', 'pong-expiry')[w]} callback from an arbitrary abstract state, K symbolic"} for w in (0, 1, 2)]
+            "desc": f"one automaton step of the real {('tick', 'message', 'pong-expiry')[w]} callback from an arbitrary abstract state, K symbolic"} for w in (0, 2)]
+    for mk in range(len(MSG_KINDS)):
+        out.append({"fn": "h10a_step", "env": {"WHICH": 1, "MSGK": mk}, "cond_timeout": 300,
+                    "desc": f"one automaton step of the real message callback for message type {MSG_KINDS[mk][0]} from an arbitrary abstract state"})
     out.append({"fn": "h10d_ctor", "env": {}, "cond_timeout": 60, "desc": "constructor: interval = K, pong timeout = 4.5*K for 12 representative K (float arithmetic: concrete values)"})
     if tier == "quick":
         for n in (1, 2, 3):
             out.append({"fn": "h10c_run", "env": {"NARR": n, "KHALF": 2000, "MAXGAP": 7000}, "cond_timeout": 600,
                         "desc": f"{n} arrival(s) at symbolic times (grid K/1000, gaps <= 7K), pings and close vs the reference automaton"})
         out.append({"fn": "h10c_run", "env": {"NARR": 2, "KHALF": 40, "MAXGAP": 140}, "cond_timeout": 300, "desc": "2 arrivals, K = 20 units"})
+        for mk in (1, 2):
+            out.append({"fn": "h10c_run", "env": {"NARR": 2, "KHALF": 2000, "MAXGAP": 7000, "MSGK": mk}, "cond_timeout": 600,
+                        "desc": f"2 arrivals of message type {MSG_KINDS[mk][0]} (the device's own ping request / a state update)"})
     else:
+        for mk in range(1, len(MSG_KINDS)):
+            out.append({"fn": "h10c_run", "env": {"NARR": 3, "KHALF": 2000, "MAXGAP": 7000, "MSGK": mk}, "cond_timeout": 1200,
+                        "desc": f"3 arrivals of message type {MSG_KINDS[mk][0]}"})
         for n in (1, 2, 3, 4):
             out.append({"fn": "h10c_run", "env": {"NARR": n, "KHALF": 2000, "MAXGAP": 7000}, "cond_timeout": 2400, "path_timeout": 120,
                         "desc": f"{n} arrival(s) at symbolic times (grid K/1000, gaps <= 7K)"})
